@@ -13,8 +13,13 @@ import (
 // premiseBounds: Len(), Bounds() and Points() of all eight geometry types are the vertex count,
 // the smallest box and the vertices in order (C04.R2/R3's model), filed under rule.
 func premiseBounds(c *Ctx, rule, why string) {
-	c.Rule(rule, "premise shared with C04.R2/R3 (same model evaluation): Bounds() of every geometry type is the smallest box around its vertices, Len() their number and Points() yields them in storage order, on model geometries with empty members in every position — "+why)
+	c.Rule(rule, "premise shared with C04.R1–R3 (same analyses): Extend is the lattice join, Overlaps holds exactly when the closed boxes share a point (every weak ordering of the coordinates), Bounds() of every geometry type is the smallest box around its vertices, Len() their number and Points() yields them in storage order, on model geometries with empty members in every position — "+why)
 	c04model(c, rule, rule)
+	// … and the box algebra those boxes are combined with (C04.R1): Extend a lattice join,
+	// Overlaps ⇔ the closed boxes share a point, Empty, Copy, box ∩ box — for every weak ordering
+	c.Alias("C04.R1", rule)
+	newC04E2(c).lattice()
+	c.Alias("C04.R1", "")
 }
 
 // premiseEqual: SR.Equal decides sameness of references and NewTransform returns the identity
